@@ -1128,7 +1128,10 @@ class MaterialIndexer(Indexer):
             except:
                 raise_material_indexer_index_error()
             chemical_index, kind = self._chemicals._get_index_and_kind(IDs)
-            index = (phase_index, chemical_index)
+            if kind is None: # [phase, ...] is the phase row; [..., ...] is all data
+                index = phase_index
+            else:
+                index = (phase_index, chemical_index)
         return index, kind, 
     
     def __iter__(self):
